@@ -925,6 +925,13 @@ impl Program {
                 }
                 wires.insert(bank.stall_signal.as_str(), WireWidth::Bits(1));
                 wires.insert(bank.bubble_signal.as_str(), WireWidth::Bits(1));
+                // a control signal the program does not assign is 0 throughout the run: like a
+                // register output it has its value before any assignment is evaluated, so it may be read
+                for special in &[&bank.stall_signal, &bank.bubble_signal] {
+                    if defaulted_wires.contains(special.as_str()) {
+                        known_values.insert(special.as_str());
+                    }
+                }
             }
 
             // Step 4: Check for missing wires
